@@ -21,8 +21,8 @@ import types
 from common import *  # noqa
 
 PROP = "C14"
-TABLES = ["Whitespace"]
-MODELS = [("c14", "Extract/ExC14.v", "run_C14")]
+TABLES = ["Whitespace", "C14_Handlers"]
+MODELS = [("c14", "Extract/ExC14.v", "run_C14L")]
 
 OPN = {1: "history_backward", 2: "history_forward", 3: "go_to_history", 4: "auto_up", 5: "auto_down",
        6: "end-of-history", 7: "insert_text", 8: "delete_before_cursor", 9: "delete", 10: "set_text",
@@ -30,10 +30,10 @@ OPN = {1: "history_backward", 2: "history_forward", 3: "go_to_history", 4: "auto
        16: "reset", 17: "load_history_if_not_yet_loaded", 18: "population_step", 19: "population_all",
        20: "set_enable_history_search", 21: "append_to_history", 22: "new_session_same_backend",
        23: "apply_search->(index,cursor)", 24: "apply_search", 25: "selection", 26: "loader_thread_step",
-       27: "key_handler"}
+       27: "key_handler", 28: "yank_arg"}
 NAV = (1, 2, 3, 4, 5, 6, 11, 12, 13, 20, 23, 25)
 HIST_STEP = (1, 2, 4, 5)
-EDIT = (7, 8, 9, 10)
+EDIT = (7, 8, 9, 10, 28)      # 28 = [28, last, arg]: the named command yank-nth-arg (last=0) / yank-last-arg (last=1)
 POP = (18, 19, 26)
 BIG = 10 ** 9
 
@@ -75,30 +75,12 @@ def oracle_arg(a):
         return 1
     if a == [0]:
         return -1
+    if abs(a[1]) >= 10 ** 7:                    # more than seven significant digits (7b1fd9f)
+        return -1 if a[1] < 0 else 1
     return 1 if a[1] >= 1000000 else a[1]
 
 
-def find_handler(h):
-    """the real handler function; fails closed unless exactly one binding carries that function"""
-    if h in _HCACHE:
-        return _HCACHE[h]
-    where, name, _ = HANDLERS[h]
-    if where == "named":
-        from prompt_toolkit.key_binding.bindings.named_commands import get_by_name
-        fn = get_by_name(name).handler
-    else:
-        import importlib
-        mod = importlib.import_module("prompt_toolkit.key_binding.bindings." + where)
-        kb = getattr(mod, "load_%s_bindings" % where)()
-        fns = {}
-        for bd in kb.bindings:
-            if getattr(bd.handler, "__name__", None) == name:
-                fns[id(bd.handler)] = bd.handler
-        if len(fns) != 1:
-            raise RuntimeError("expected exactly one %s handler named %s, found %d" % (where, name, len(fns)))
-        fn = list(fns.values())[0]
-    _HCACHE[h] = fn
-    return fn
+from c14_handlers import find_handler  # noqa: E402  (the same lookup the table generator uses)
 
 
 def base_op(o):
@@ -257,7 +239,9 @@ def snapshot(b, h, status, ret):
             None if b.history_search_text is None else [S(b.history_search_text)],
             None if b.preferred_column is None else [b.preferred_column],
             VST[b.validation_state.name], [S(x) for x in h._loaded_strings[::-1]], [S(x) for x in storage_of(h)],
-            1 if b.selection_state is not None else 0]
+            1 if b.selection_state is not None else 0,
+            None if b.yank_nth_arg_state is None else [[b.yank_nth_arg_state.history_position, b.yank_nth_arg_state.n,
+                                                         S(b.yank_nth_arg_state.previous_inserted_word)]]]
 
 
 async def spin(n=6):
@@ -474,6 +458,14 @@ async def impl_buffer_case(case, slow=False, file_backend=False, threaded=False,
                         ev.arg = KeyPressEvent.arg.fget(ev)
                         ev.arg_present = ev._arg is not None
                         find_handler(op[1])(ev)
+                    elif k == 28:
+                        # the real named command yank-nth-arg / yank-last-arg with the real event.arg / arg_present
+                        from prompt_toolkit.key_binding.key_processor import KeyPressEvent
+                        ev = make_event(b)
+                        ev._arg = arg_string(op[2])
+                        ev.arg = KeyPressEvent.arg.fget(ev)
+                        ev.arg_present = KeyPressEvent.arg_present.fget(ev)
+                        get_by_name("yank-last-arg" if op[1] else "yank-nth-arg").handler(ev)
                     elif k == 24:
                         # incremental-search landing: the search itself is C16's; what it found is
                         # recorded in the case (op 23) and applied by the real apply_search
@@ -689,7 +681,7 @@ class Runner:
     def __init__(self):
         self.loop = asyncio.new_event_loop()
 
-    def run(self, coro_fn, seconds=10):
+    def run(self, coro_fn, seconds=60):      # generous: on a loaded machine an alarm that fires inside an asyncio callback kills a background task instead of the case
         def go():
             return self.loop.run_until_complete(coro_fn())
         try:
@@ -901,7 +893,7 @@ def oracle_case(case, results):
 # --------------------------------------------------------------------------
 # generators
 
-HIST_POOL = ["a", "ab", "abc", "b", "ba", "a\nb", "ab\ncd\ne", "", "界a", "b\n"]
+HIST_POOL = ["a", "ab", "abc", "b", "ba", "a\nb", "ab\ncd\ne", "", "界a", "b\n", "a b", "b 'a b' ab"]
 TYPE_POOL = ["a", "b", "ab", "x", "界"]
 POSITIONS = [-7, -1, 0, 1, 2, 3, 50]
 
@@ -941,7 +933,9 @@ def rand_count(rng):
 
 def rand_buffer_op(rng, loaded):
     r = rng.random()
-    if r < 0.04:
+    if r < 0.025:
+        return [28, rng.randint(0, 1), rng.choice([[], [], [], [0], [1, 0], [1, 1], [1, 2], [1, -1], [1, -3], [1, 7]])]
+    if r < 0.065:
         hnd = rng.choice(sorted(HANDLERS))
         a = rng.choice([[], [], [0], [1, 0], [1, 1], [1, 2], [1, 3], [1, 5], [1, -1], [1, 1000000]])
         if hnd == 7 and a == []:
@@ -1082,7 +1076,7 @@ def gen_buffer_cases(chk):
                 ops += [[19], [4, 1, 0]]
                 add("population_interleaved", [S(x) for x in hh], ehs, 0, 0, None, ops)
     # 4b. key handlers with numeric arguments: every handler x every kind of argument x start index
-    ARGS = [[], [0], [1, 0], [1, 1], [1, 2], [1, 3], [1, -2], [1, 7], [1, 999999], [1, 1000000], [1, 12345678]]
+    ARGS = [[], [0], [1, 0], [1, 1], [1, 2], [1, 3], [1, -2], [1, 7], [1, 999999], [1, 1000000], [1, 12345678], [1, -9999999], [1, -10000000], [1, 123456789012]]
     for hh in (["a", "b"], ["ab", "b", "a", "abc"], ["a\nb", "a", "a\nb"]):
         for start in sorted(set([0, 1, len(hh)])):
             for hnd in sorted(HANDLERS):
@@ -1094,6 +1088,21 @@ def gen_buffer_cases(chk):
                             continue
                         add("key_handlers_with_arg", [S(x) for x in hh], ehs, 0, 0, None,
                             [[17], [19], [3, start]] + ([[7, S("a")]] if ehs else []) + [[27, hnd, a], [27, 2, a], [27, hnd, [1, 1]]])
+    # 4c. yank-nth-arg / yank-last-arg: every argument (none, '-', 0.., negative, out of range) on histories of
+    # multi-word / quoted / multi-line entries; repeated (rotation through the history, beyond its oldest entry);
+    # mixed with cursor moves, edits and browsing (which drop the yank state); before the history is loaded
+    YH = [['echo "hello world" foo', "ls -la /tmp", "git commit -m 'a b' x"], ["one"], ["a\nb c", "  lead  trail  ", 'say "unterminated x'],
+          ["tab\tsep\x0bvt\x1cfs", "", "'q' \"r s\"t"], []]
+    YARGS = [[], [0], [1, 0], [1, 1], [1, 2], [1, 3], [1, 9], [1, -1], [1, -2], [1, -9], [1, 1000000]]
+    for hh in YH:
+        st = [S(x) for x in hh]
+        for last in (0, 1):
+            for a in YARGS:
+                for load in (0, 1):
+                    pre = [[17], [19]] if load else []
+                    add("yank_arg", st, 0, 0, 0, None, pre + [[28, last, a], [28, last, []], [28, last, []], [28, last, []], [28, 1 - last, a]])
+            for mid in ([12, 1], [7, S("x")], [4, 1, 0], [8, 1], [11, 0], [14, 0], [17], [25, 1], [10, S("")], [15]):
+                add("yank_arg", st, 0, 0, 1, None, [[17], [19], [7, S("cmd ")], [28, last, []], mid, [28, last, []], [28, last, [1, 0]], mid, [28, 0, [1, -1]]])
     # 5. random sessions
     nrand = 8000 if thorough else 1500
     for _ in range(nrand):
@@ -1277,6 +1286,10 @@ def gen_slow_cases(chk):
             ops.append([3 if rng.random() < 0.45 else 1, o])
         ops.append([1, [15]])
         cases.append([rand_storage(rng), rng.randint(0, 1), 1, rng.randint(0, 1), rules, ops])
+    # in this family the event loop DOES run after a deferred operation: the scheduled validation starts and waits
+    # inside the validator (flag bit 2), it is in flight for the document of that moment
+    for c in cases:
+        c[5] = [[f | 4 if f >= 2 else f, o] for f, o in c[5]]
     return cases
 
 
@@ -1370,9 +1383,9 @@ def gen_session_scripts(chk):
     return scripts
 
 
-MALFORMED = [[], [[], 0, 0, 0, None], [[], 0, 0, 0, None, [[1, [99]]]], [[], 0, 0, 0, None, [[7, [1, 1]]]],
+MALFORMED = [[], [[], 0, 0, 0, None], [[], 0, 0, 0, None, [[1, [99]]]], [[], 0, 0, 0, None, [[9, [1, 1]]]], [[], 0, 0, 0, None, [[4, [1, 1]]]], [[], 0, 0, 0, None, [[5, [1, 1]]]], [[], 0, 0, 0, None, [[-1, [1, 1]]]],
              [[], 0, 0, 0, [[[[9], [0, 0]]]], []], [[], 0, 0, 0, None, [[1, [16, [97], 5, 0]]]], [[5], 0, 0, 0, None, []],
-             [[], 0, 0, 0, None, [[1, [27, 99, []]]]], [[], 0, 0, 0, None, [[1, [27, 7, []]]]], [[], 0, 0, 0, None, [[1, [27, 1, [2]]]]]]
+             [[], 0, 0, 0, None, [[1, [27, 99, []]]]], [[], 0, 0, 0, None, [[1, [27, 7, []]]]], [[], 0, 0, 0, None, [[1, [27, 1, [2]]]]], [[], 0, 0, 0, None, [[1, [28, 0, [2]]]]], [[], 0, 0, 0, None, [[1, [28, 0]]]]]
 
 
 # --------------------------------------------------------------------------
@@ -1381,6 +1394,8 @@ def fmt_ops(ops, n=8):
     def one(o):
         if o[0] == 27:
             return "key_handler(%s,arg=%r)" % (HANDLER_NAMES.get(o[1], o[1]), arg_string(o[2]))
+        if o[0] == 28:
+            return "%s(arg=%r)" % ("yank-last-arg" if o[1] else "yank-nth-arg", arg_string(o[2]))
         a = []
         for x in o[1:]:
             a.append(repr(unS(x)) if isinstance(x, list) else str(x))
@@ -1405,12 +1420,12 @@ def run_impl(runner, level, item):
         if level == "buffer-file":
             return item, runner.run(lambda: impl_buffer_case(item, file_backend=True))
         if level == "buffer-threaded":
-            return item, runner.run(lambda: impl_buffer_case(item, threaded=True, file_backend=bool(item[6] == 2)), 30)
+            return item, runner.run(lambda: impl_buffer_case(item, threaded=True, file_backend=bool(item[6] == 2)), 90)
         if level == "buffer-shared":
-            return item, runner.run(lambda: impl_shared_pair(item[0], item[1]), 20)
+            return item, runner.run(lambda: impl_shared_pair(item[0], item[1]), 60)
         if level == "session-threaded":
-            return runner.run(lambda: impl_session_case(item, threaded=True), 30)
-        return runner.run(lambda: impl_session_case(item), 20)
+            return runner.run(lambda: impl_session_case(item, threaded=True), 90)
+        return runner.run(lambda: impl_session_case(item), 60)
     except Hang:
         if level == "buffer-shared":
             return item, ([["HANG"]], [["HANG"]], None, None)
@@ -1422,7 +1437,7 @@ def run_impl(runner, level, item):
 def main(tier):
     chk = Check(PROP, tier)
     pr = chk.proofs("Props/C14.v", tables=TABLES)
-    okm, logm = build_model("c14", "Extract/ExC14.v", "run_C14", tables=TABLES)
+    okm, logm = build_model("c14", "Extract/ExC14.v", "run_C14L", tables=TABLES)
     if not okm:
         chk.violation("tie", "model does not build: " + logm[-400:], {"kind": "model-build"}, {"log": logm[-3000:]}, no_input=True)
         return chk.finish()
@@ -1556,7 +1571,7 @@ def main(tier):
     k = 800 if chk.tier == "thorough" else 150
     idx = sorted(chk.rng.sample(range(len(cases)), min(k, len(cases))))
     pairs = [(wcases[i], results[i]) for i in idx]
-    bad, logs = vm_crosscheck(PROP, "run_C14", "Model.C14_HistoryNav", pairs, per_file=100)
+    bad, logs = vm_crosscheck(PROP, "run_C14L", "Model.C14_Layer", pairs, per_file=100)
     chk.coverage["vm_compute_crosschecked"] = len(pairs)
     model_bad = set(i for i, (a, m) in enumerate(zip(results, model_results)) if sx_norm(a) != m)
     vm_bad = set(idx[b] for b in bad if isinstance(b, int))
@@ -1579,12 +1594,13 @@ def main(tier):
         "round 6: every history-related key handler (4 named commands, vi k/j/<n>G/up/down, emacs c-p/c-n, basic up/down) x 11 numeric arguments (none, '-', 0, 1, 2, 3, -2, 7, 999999, 1000000, 12345678) x 3 histories x start index; "
         "148 / 408 pairs of sessions whose InMemoryHistory objects are built from one shared start-up list (caller's list and the other session's storage inspected)." % (4 if chk.tier == "thorough" else 3, POSITIONS))
     chk.assumptions += [
-        "completion state is absent (auto_up/auto_down never take their complete_previous/complete_next branch: still open); selection state is a flag; read-only buffers, undo stack, events, yank-nth-arg/yank-last-arg are outside the model",
+        "completion state is absent (auto_up/auto_down never take their complete_previous/complete_next branch: still open); selection state is a flag; read-only buffers, undo stack, events are outside the model",
+        "yank-nth-arg/yank-last-arg (op 28, the real named commands with the real event.arg/arg_present) are modelled in a layer over the base state (Model/C14_Layer.v); the layer reconstructs whether _text_changed/_cursor_position_changed/reset() ran (operation proper changed index, text or cursor; population steps never notify) - an assumption checked by comparing yank_nth_arg_state in every snapshot of every family; the two named-command bodies are hand-written",
         "a validate-while-typing run scheduled by an operation completes before the next operation unless that operation is flagged deferred (type-ahead batches; slow-validator family where validate_async waits at a gate while later operations run); thread-level asynchrony (ThreadedValidator) is outside",
         "history backends: the model's storage is an abstract list (exact round trip); InMemoryHistory and a real FileHistory (storage = what a new FileHistory reads back) are run against it; the gated histories delegate every item to History.load()",
         "ThreadedHistory model: the loader thread's snapshot of the backend is taken when load() first runs, and thread step / consumer chunk / append_string are atomic and occur in the order the harness chooses (a semaphore in the inner load_history_strings and quiescence waits enforce that order on the real object); the real generator takes its snapshot a little later, inside the thread, so an append racing with the thread's start is not explored (C13's subject)",
         "since round 6 the theorems about navigation/edits/prefix/back-forth (with and without prefix search)/reset hold for either kind of History object (no thr hypothesis: entries delivered by the ThreadedHistory consumer are prepended and shift the index); still for the InMemoryHistory/FileHistory kind only: C14_reset_clean (uninterrupted pop_all; the ThreadedHistory counterpart is C14_reset_clean_threaded), C14_new_session_clean, C14_recall_next_session, C14_append_once/C14_accept_history (ThreadedHistory: C14_append_once_threaded, known finding C14-F3)",
-        "key handlers with a numeric argument (op 27): the real handler function (named command, or the unique binding of load_vi_bindings/load_emacs_bindings/load_basic_bindings carrying that function) is called with an event whose arg is computed by the real KeyPressEvent.arg from _arg; the model's handler_op table (which Buffer call each handler makes) is hand-written and checked by this correspondence only; vi-mode key SEQUENCES (Escape, operators) are not driven through a PromptSession",
+        "key handlers with a numeric argument (op 27): the real handler function (named command, or the unique binding of load_vi_bindings/load_emacs_bindings/load_basic_bindings carrying that function) is called with an event whose arg is computed by the real KeyPressEvent.arg from _arg; what each handler does is regenerated on every run from the handler's SOURCE by a fail-closed AST translator (gen/gen_t_c14.py -> Gen/C14_Handlers.v: calls on event.current_buffer with count = event.arg - k / constant / signature default; the constants of KeyPressEvent.arg too), so a handler edit changes the model or stops the check; the oracle keeps its own hand-written reading (HANDLERS); vi-mode key SEQUENCES (Escape, operators) are not driven through a PromptSession",
         "two sessions constructed from one start-up list (shared_startup_list_pairs): the model has no aliasing - every History object owns its storage; the harness runs session A then session B on two gated InMemoryHistory objects built from the same Python list and also inspects that list and A's storage afterwards",
         "the validator is an arbitrary function (text, cursor) -> option position in the theorems; the harness instantiates it with rule lists",
         "vi-mode keys k, j, <n>G, up, down are exercised through their real handler functions at buffer level (op 27), not through key sequences of a vi-mode PromptSession",
@@ -1598,6 +1614,8 @@ def infer_level(w, given=None):
     thr = len(w) > 6 and bool(w[6])
     if given in ("buffer", "buffer-slow", "buffer-file", "buffer-threaded", "buffer-shared", "session", "session-threaded"):
         return given
+    if any(f >= 4 for f, o in w[5]):
+        return "buffer-slow"
     sessionlike = bool(w[5]) and w[5][0][0] == 2 and w[5][0][1][0] == 16
     if sessionlike:
         return "session-threaded" if thr else "session"
